@@ -30,6 +30,32 @@ def processLine (line : String) : String :=
       else if !(bool j "dropOldest") && a + nat j "refused" != nat j "sent" then s!"DIVERGE concx depth: answers do not add up {tag}"
       else if bool j "dropOldest" && (a != nat j "sent" || act != min d (nat j "sent")) then s!"PROP C12 drop-oldest-under-concurrency accepted={a} active={act} {tag}"
       else "ok"
+    | "foreign-lock" =>
+      -- C01: every acknowledged request stands for one stored message per target, also when another process held the write
+      -- lock of the file while it was served (an enqueue that could not write must surface as a refusal)
+      let t := nat j "targets"
+      let acked := nat j "ackedBefore" + nat j "ackedUnderLock"
+      if !(bool j "locked") then s!"DIVERGE concx foreign-lock: the foreign writer could not take the lock {tag}"
+      else if nat j "ackedBefore" != 1 then s!"DIVERGE concx foreign-lock: the request before the lock was not accepted {tag}"
+      else if (obj j "stored").getInt?.toOption.getD (-1) < 0 then s!"PROP C01 database-does-not-reopen-after-a-foreign-writer {tag}"
+      else if nat j "stored" < acked * t then s!"PROP C01 acknowledged-while-another-process-held-the-write-lock-but-not-stored acked={acked} targets={t} stored={nat j "stored"} {tag}"
+      else "ok"
+    | "aborted-upload" =>
+      -- C01 / C07: the only message is the complete request's; a part of a body is never a message
+      let full := str j "full"
+      let stored := (arr j "stored").map (fun (x : Json) => x.getStr?.toOption.getD "")
+      if nat j "completeStatus" != 202 then s!"DIVERGE concx aborted-upload: the complete request was not accepted {tag}"
+      else if nat j "status" == 202 then s!"PROP C01,C07 upload-that-ended-half-way-acknowledged {tag}"
+      else if stored.any (· != full) then s!"PROP C01,C07 part-of-a-request-body-stored-as-a-message {tag}"
+      else if stored != [full] then s!"PROP C01,C07 messages-stored-differ-from-the-one-complete-request stored={stored.length} {tag}"
+      else "ok"
+    | "partial-fanout-payload" =>
+      -- C07 / C02: a stored payload is the body of a request that was sent, and stays what it was when it was stored
+      let sent := (arr j "sentBodies").map (fun (x : Json) => x.getStr?.toOption.getD "")
+      let first := (arr j "storedWhenFirstSeen").map (fun (x : Json) => x.getStr?.toOption.getD "")
+      if !(arr j "changed").isEmpty then s!"PROP C07,C02 stored-payload-changed-after-it-was-stored {tag}"
+      else if first.any (fun p => !sent.contains p) then s!"PROP C07 stored-payload-is-no-request-body {tag}"
+      else "ok"
     | "rate" =>
       -- C12: one global bucket with a negligible refill admits at most its burst, however many goroutines ask at once
       let a := nat j "accepted"; let b := nat j "burst"
